@@ -16,6 +16,14 @@ CHECKS = {
         note="Trusted: TLC, the gate's attribution of backend calls to contenders (API function names on the call stack), model time for staleness (Stat re-stamped by the gate). "
              "Known findings (protocol-level, see known_findings.json) are reported as KNOWN-FINDING; any other signature is a violation.",
         technique="TLA+ spec + TLC exhaustive; TLC-generated schedules forced on real code through an afero.Fs gate; TLC judges recorded traces"),
+    "C02": dict(
+        category="model_checking", design_ref="DESIGN.md 5/C02",
+        text="Paths.tla is a lexical path algebra written from the POSIX rules; ZipSlip.tla enumerates every entry name of <=3 components over a colliding alphabet x destination shape x entry kind "
+             "(nested archives with hostile stems included) and decides with it whether the entry escapes (24k scenarios). Real archives are built for them and extracted on both backends; every "
+             "mutating backend call with its path, and a snapshot of the sandbox and of the working directory outside the destination, are judged by ZipSlipTrace.tla, where TLC cleans / joins / tests "
+             "containment itself and requires the 'malicious' kind for escaping entries; names over raw bytes (non-UTF-8 included) go through the same judgement.",
+        note="Trusted: TLC, archive/zip to build archives, the gate's record of mutating calls, the no-follow snapshot.",
+        technique="TLA+ path algebra + TLC exhaustive scenario enumeration; replay on real archives; TLC trace validation of backend mutations"),
     "C04": dict(
         category="model_checking", design_ref="DESIGN.md 5/C04",
         text="FsRemove.tla states the reference semantics of removal (rm -rf: links are leaves, exclusion protects an entry, what is beneath it and its ancestors) over a sandbox "
